@@ -77,6 +77,7 @@ func runMain(args []string) {
 	}
 	funcs := map[string]bool{}
 	exts := map[string]bool{}
+	blocks := map[string]bool{}
 	seenViol := map[string]int{}
 	seenInc := map[string]bool{}
 	seenErr := map[string]bool{}
@@ -159,6 +160,9 @@ func runMain(args []string) {
 		}
 		for _, f := range res.Funcs {
 			funcs[f] = true
+		}
+		for _, b := range res.Blocks {
+			blocks[b] = true
 		}
 		for _, f := range res.Externals {
 			exts[f] = true
@@ -310,6 +314,10 @@ func runMain(args []string) {
 		sum.Funcs = append(sum.Funcs, f)
 	}
 	sort.Strings(sum.Funcs)
+	for b := range blocks {
+		sum.Blocks = append(sum.Blocks, b)
+	}
+	sort.Strings(sum.Blocks)
 	for f := range exts {
 		sum.Externals = append(sum.Externals, f)
 	}
